@@ -8,6 +8,8 @@ rejects (NotImplementedError) are counted, never judged.
 Part "mk": eval() of the source emitted by TranslatorMiasm for a location-free
 expression must return the identical (hash-consed) expression object.
 """
+import time
+
 from vf import common
 
 CHECK = dict(
@@ -68,6 +70,7 @@ def run_shard(params, rec):
     g_mk = X.HGen(rng, widths=X.WIDTHS_256, max_width=256, loc=0.0)
     g_mk_loc = X.HGen(rng, widths=X.WIDTHS_256, max_width=256, loc=0.15)
     tpy = TranslatorPython()
+    slow_evals = [0]
     tmk = TranslatorMiasm()
     mk_ns = dict((k, getattr(m2, k)) for k in ("ExprInt", "ExprId", "ExprMem", "ExprOp", "ExprSlice",
                                                "ExprCompose", "ExprCond", "ExprAssign"))
@@ -115,7 +118,12 @@ def run_shard(params, rec):
         ns = {"memory": memory_for(env)}
         for i, v in env.ids.items():
             ns[i.name] = v
-        return eval(code, ns)
+        t0 = time.process_time()
+        try:
+            return eval(code, ns)
+        finally:
+            if time.process_time() - t0 > 0.05:
+                slow_evals[0] += 1     # CPU time; only bounds the cost, never decides a verdict
 
     def describe(s, env):
         c = s.__class__
@@ -165,6 +173,14 @@ def run_shard(params, rec):
             g, src_kind = g_all, "all_ops"
         n = rng.choice(PY_WIDTHS) if rng.random() < 0.5 else g.width()
         e = g.expr(n, rng.choice([1, 2, 3, 3, 4, 5]))
+        if src_kind != "all_ops" and rng.random() < 0.08:
+            k = rng.random()
+            if k < 0.5:
+                e = m2.ExprOp('parity', e)
+            elif k < 0.8:
+                e = m2.ExprOp('==', e, g.expr(n, 2) if rng.random() < 0.7 else e)
+            else:
+                e = m2.ExprCond(m2.ExprOp('==', e, g.int_(n)), g.expr(8, 1), g.expr(8, 1))
         rec.ev()
         rec.count("py:cases")
         rec.count("py:gen:" + src_kind)
@@ -212,10 +228,13 @@ def run_shard(params, rec):
             if any(a + nb > (1 << pw) for a, nb, pw in env.reads):
                 rec.count("py:mem_wrap_skipped")
                 continue
-            if '<<' in ops:
-                worst = shift_class(e, env)
-                if worst:
-                    rec.count("py:shift_count>=2^24_evaluated")
+            worst = shift_class(e, env) if '<<' in ops else 0
+            if worst:
+                if slow_evals[0] >= 20:
+                    # the source really builds 2^count-bit integers (already reported): stop paying for it
+                    rec.count("py:shift_count>=2^24_skipped_after_20_slow_evaluations")
+                    continue
+                rec.count("py:shift_count>=2^24_evaluated")
             try:
                 got = py_eval(code, env)
                 exc = None
